@@ -35,8 +35,8 @@
      * which packets are lost when a queue is full or a carrier dies;
      * what a half-open carrier (client end dead, server end still attached)
        swallows;
-     * the address reported when the bounded memory has already forgotten the
-       ClientID (more than RingCap later attachments): `forgot`;
+     * (no longer a don't-care since /repo ee0c783: when the bounded memory has
+       forgotten the ClientID the address is empty, never nil);
      * when exactly the server notices a dead carrier. *)
 EXTENDS Integers, Sequences, FiniteSets, TLC
 
@@ -140,9 +140,14 @@ Window   == {j \in DOMAIN sets : j > Len(sets) - RingCap}
 Entries(id) == {j \in Window : sets[j].id = id}
 Latest(S) == CHOOSE j \in S : \A m \in S : m <= j
 RingGet(id) == IF Entries(id) = {} THEN NoAddr ELSE sets[Latest(Entries(id))].addr
-(* What the property demands: the sanitised client_ip of the most recent
-   carrier that presented `id`; NoAddr when the memory legitimately forgot. *)
-Want(id) == IF Entries(id) = {} THEN NoAddr ELSE Sanit(ip(sets[Latest(Entries(id))].k))
+(* acceptStreams: the address of the session is what the lookup found, or
+   the EMPTY address when the bounded memory has evicted the ClientID (never
+   a nil net.Addr: callers dereference it). *)
+AddrFor(id) == IF RingGet(id) = NoAddr THEN "" ELSE RingGet(id)
+(* What the property demands: RemoteAddr of an accepted connection is the
+   sanitised client_ip of the most recent carrier that presented `id`, or ""
+   when the association was evicted - in {Sanit(ip of a presenting carrier), ""}. *)
+Want(id) == IF Entries(id) = {} THEN "" ELSE Sanit(ip(sets[Latest(Entries(id))].k))
 
 -----------------------------------------------------------------------------
 (* Environment: the client ends of the carriers. *)
@@ -329,7 +334,7 @@ S_QueueIncoming(k) == Quiet /\ QueueIncoming(k, sid[k])
 S_DownFrame(k)    == Quiet /\ cst[k] = "att" /\ DownFrame(k, sid[k])
 S_Detach(k)       == Quiet /\ Detach(k)
 S_KcpInput        == Quiet /\ KcpInput
-S_GetAddr(id)     == Quiet /\ GetAddr(id, RingGet(id))
+S_GetAddr(id)     == Quiet /\ GetAddr(id, AddrFor(id))
 S_Accept(id)      == Quiet /\ Accept(id)
 S_KcpOutput(id, s) == Quiet /\ KcpOutput(id, s)
 
@@ -394,10 +399,12 @@ NoTokenNoConn ==
 
 (* C18: the address of an accepted connection is the sanitised client_ip of
    the most recent carrier that presented the ClientID when the session was
-   established (NoAddr only if the bounded memory had forgotten it). *)
+   established, or empty if the bounded memory had evicted it. *)
 SetIsSanitised == \A j \in DOMAIN sets : sets[j].k \in Carriers => sets[j].addr = Sanit(ip(sets[j].k)) /\ sets[j].id = pres(sets[j].k)
+PresentedAddrs(id) == {Sanit(ip(k)) : k \in {j \in Carriers : cli[j] # "idle" /\ pres(j) = id}}
 RemoteAddrRight ==
-  /\ \A j \in DOMAIN accepted : accepted[j].addr = accepted[j].want
+  /\ \A j \in DOMAIN accepted : /\ accepted[j].addr = accepted[j].want
+                                  /\ accepted[j].addr \in PresentedAddrs(accepted[j].id) \cup {""}
   /\ \A id \in Ids : sessAddr[id] # None => sessAddr[id] = sessWant[id]
 
 (* A carrier that cannot complete the preamble is eventually closed (fairness
